@@ -109,6 +109,44 @@ def ob_sig(k, prefix, lens, pytype='bytes', acc='default', second=None):
     return res
 
 
+def ob_pure(k, prefix, lens1, n2, second=None):
+    """The signature is a function of (k, prefix, sequences) only: an earlier computation in the same process - finished or
+    failed half-way (a str sequence with a non-ASCII character raises after the first sequence was accumulated) - leaves
+    nothing behind.  Two calls in one session share every module-level object of gambit.sigs.calc / gambit.kmers."""
+    lens1 = tuple(lens1)
+    positions = max(0, max(lens1 + (n2,)) - (k + len(prefix)) + 1)
+    ks = KSession(max_unroll=positions + 3)
+    spec = make_spec(ks, k, prefix)
+    first, fcells = [], []
+    for i, n in enumerate(lens1):
+        sq, c = sym_bytes('pq'[i], n, 'bytes' if i == 0 else 'str')
+        first.append(sq)
+        fcells.append(c)
+    fn = ks.lookup('gambit.sigs.calc', 'calc_signature')
+    out1 = ks.call(fn, spec, first)
+    t, tc = sym_bytes('t', n2, 'bytes')
+    out = ks.call(fn, spec, t)
+    name = f'pure k={k} prefix={prefix} first={list(lens1)} then={n2}'
+    ex = lambda m: {'first_hex': [model_bytes(m, cs).hex() for cs in fcells], 'seqs_hex': [model_bytes(m, tc).hex()], 'k': k, 'prefix': prefix,
+                    'type': 'bytes', 'acc': 'default', 'first_types': ['bytes', 'str']}
+    sig = out.ret
+    if not isinstance(sig, IndexArrayM):
+        viol, reach = True, [('reach', True)]
+    else:
+        occ = S.occurrences(tc, k, prefix.encode())
+        spec_member = lambda v: lor(*[land(c, idx == v) for c, idx, _, _ in occ])
+        unsound = lor(*[land(g, lnot(spec_member(val_bv64(x)))) for g, x in sig.inserts])
+        incomplete = lor(*[land(c, lnot(member(sig, idx))) for c, idx, _, _ in occ])
+        viol = lor(out.raised, unsound, incomplete, lnot(sig.is_sorted))
+        occ1 = S.occurrences(fcells[0], k, prefix.encode())
+        reach = [('first-call-fails-after-a-match', land(out1.raised, lor(*[c for c, _, _, _ in occ1]))),
+                 ('first-call-succeeds-with-a-match', land(lnot(out1.raised), lor(*[c for c, _, _, _ in occ1]))),
+                 ('second-call-has-a-match', lor(*[c for c, _, _, _ in occ]))]
+    return decide(name, [], viol, ks, ex, TO, reach_goals=reach, second=second,
+                  bounds={'k': k, 'prefix': prefix, 'first call': f'bytes[{lens1[0]}] + str[{lens1[1]}] (any code points, so it may fail half-way)',
+                          'second call': f'bytes[{n2}]', 'bytes': 'all 256 values per position'})
+
+
 # ------------------------------------------------------------------------------------------------ replay
 
 def real_signature(k, prefix, seqs, pytype, acc):
@@ -143,7 +181,39 @@ def real_signature(k, prefix, seqs, pytype, acc):
     return ('ok' if sig.is_sorted else 'ok-unsorted', vals, str(sig.dtype)), how
 
 
+def replay_pure(cex):
+    """Both calls on the real modules in one fresh interpreter (the compiled kernels hold no state; a stale binary does not
+    matter for what the Python layer keeps between calls)."""
+    import subprocess, sys, json
+    code = (
+        "import sys, json\n"
+        "import gambit.kmers as gk, gambit.sigs.calc as gc\n"
+        "c = json.loads(sys.argv[1])\n"
+        "spec = gk.KmerSpec(c['k'], c['prefix'])\n"
+        "first = [bytes.fromhex(h) if t == 'bytes' else bytes.fromhex(h).decode('latin-1') for h, t in zip(c['first_hex'], c['first_types'])]\n"
+        "try:\n"
+        "    gc.calc_signature(spec, first); f = 'returned'\n"
+        "except Exception as e:\n"
+        "    f = type(e).__name__\n"
+        "try:\n"
+        "    r = gc.calc_signature(spec, bytes.fromhex(c['seqs_hex'][0])); out = ['ok', [int(x) for x in r], str(r.dtype)]\n"
+        "except Exception as e:\n"
+        "    out = [type(e).__name__, None, None]\n"
+        "print(json.dumps({'first': f, 'second': out}))\n")
+    p = subprocess.run([sys.executable, '-c', code, json.dumps(cex)], capture_output=True, text=True, timeout=120)
+    lines = [l for l in p.stdout.splitlines() if l.startswith('{')]
+    if not lines:
+        return False, {'error': 'replay produced no result', 'stderr': p.stderr[-400:]}
+    d = json.loads(lines[-1])
+    t = bytes.fromhex(cex['seqs_hex'][0])
+    want = ['ok', S.py_signature(cex['k'], cex['prefix'].encode(), [t]), str(np.dtype(S.index_dtype_str(cex['k'])))]
+    return d['second'] != want, {'how': 'real gambit modules, two calls in one interpreter', 'first_call': d['first'], 'got': d['second'], 'want': want,
+                                 'first': cex['first_hex'], 'second': repr(t)}
+
+
 def replay(cex):
+    if 'first_hex' in cex:
+        return replay_pure(cex)
     seqs = [bytes.fromhex(h) for h in cex['seqs_hex']]
     k, prefix = cex['k'], cex['prefix']
     got, how = real_signature(k, prefix, seqs, cex['type'], cex['acc'])
@@ -225,6 +295,10 @@ def main(tier):
         return 'cvc5' if tot <= 6 else ('z3bin' if tot <= 8 else None)
     specs = [('props.C01', 'ob_sig', dict(p, second=second_for(p))) for p in plan(tier)]
     specs.sort(key=lambda s: -(sum(s[2]['lens']) * 10 + s[2]['k']))
+    # history independence: (k, prefix) on both sides of the default-accumulator switch
+    for k, p, extra in ((2, 'AT', 1), (3, 'A', 1), (12, 'A', 0)) + (((1, 'ATG', 2), (11, 'AT', 0)) if tier == 'thorough' else ()):
+        n = k + len(p) + extra
+        specs.append(('props.C01', 'ob_pure', dict(k=k, prefix=p, lens1=[n, 1], n2=n)))
     results = run_pool(specs, budget_s=3000 if tier == 'thorough' else 900)
     run.add_results(results, rung=tier)
     for r in results:
